@@ -104,6 +104,26 @@ def kindName : VKind → String
 def showPicks (ps : List (List String)) : String :=
   "".intercalate (ps.map fun p => "(" ++ "+".intercalate ((p.mergeSort strLe).eraseDups) ++ ")")
 
+def showAnswers (w : World) (vc : ViewCell) : String :=
+  let n := match viewLen w vc with
+    | .ok k => toString k
+    | .error e => "!" ++ e
+  let hs := sortedHandles w.sigs
+  let member :=
+    if (viewMember w vc default).isNone then "-"
+    else if hs.isEmpty then "."
+    else "".intercalate (hs.map fun h =>
+      match w.sigs.cell h with
+      | some sc => if (viewMember w vc sc.val.mh).getD false then "1" else "0"
+      | none => "x")
+  let found := match viewFind w vc with
+    | .noProbe => "-"
+    | .mixed => "?"
+    | .stale => "~"
+    | .err e => "!" ++ e
+    | .names l => if l.isEmpty then "." else "+".intercalate ((l.map dash).mergeSort strLe)
+  s!"n={n};in={member};f={found}"
+
 def showView (w : World) (num : List (Nat × Nat)) (vc : ViewCell) : String :=
   let own := match vc.kind with
     | .linear => "m=" ++ ",".intercalate (vc.sigs.map (refName "s" w.sigs))
@@ -111,9 +131,10 @@ def showView (w : World) (num : List (Nat × Nat)) (vc : ViewCell) : String :=
     | .lazy => "db=" ++ refName "v" w.views vc.db ++ ";sel=" ++ showSel vc.sel
     | .zipnm | .sqlite | .lcasql => "sel=" ++ showSel vc.sel
     | .sbtdisk => "p=" ++ showPicks vc.picks
-    | .zipm | .multi | .standalone => "rows=" ++ ",".intercalate (vc.rows.map (showRow w num))
+    | .zipm | .standalone => "rows=" ++ ",".intercalate (vc.rows.map (showRow w num))
+    | .multi => s!"par=p:{vc.scaled};rows=" ++ ",".intercalate (vc.rows.map (showRow w num))
     | .lca => s!"n={vc.vals.length};p=" ++ showPicks vc.picks
-  kindName vc.kind ++ ";" ++ own ++ ";" ++ showSigs w vc
+  kindName vc.kind ++ ";" ++ own ++ ";" ++ showAnswers w vc ++ ";" ++ showSigs w vc
 
 def showWorld (w : World) : String :=
   let mhs := showHeap w.heap
@@ -227,6 +248,8 @@ def parse (line : String) : Option Obj.Op :=
   | "vselpick" :: r :: v :: names => do pure (.vSelectPick (← nat? r) (← nat? v) (← names.mapM name?))
   | ["vget", r, v, i] => do pure (.vGet (← nat? r) (← nat? v) (← nat? i))
   | "vro" :: name :: v :: qs => do pure (.vRead name (← nat? v) (← nats? qs))
+  | "vmf" :: name :: v :: u :: ss => do pure (.vManifest name (← nat? v) (← nat? u) (← nats? ss))
+  | "vzipg" :: r :: m :: k :: ss => do pure (.vZipGroups (← nat? r) (← bool? m) (← nat? k) (← nats? ss))
   | _ => (parseMh line).map .mh
 
 def stepLine (w : World) (line : String) : World × String :=
